@@ -1635,6 +1635,10 @@ class MiniVM:
             return VMFunc(mod, e, owner)
         if isinstance(e, ast.Slice):
             return self._index(e, env, mod, owner)
+        if isinstance(e, ast.NamedExpr):
+            v = self.eval(e.value, env, mod, owner)
+            self.assign(e.target, v, env, mod, owner)
+            return v
         if isinstance(e, (ast.Yield, ast.YieldFrom)):
             if not self._yield_stack:
                 raise VMError("yield outside a driven generator")
